@@ -363,16 +363,32 @@ def is_fresh_collection(t):
     return name in ("new", "default") and not [a for a in t[2] if a[0] != "lit"]
 
 
+def _single_effect_leaf(u, lv):
+    """u is a tree of `ite`s whose leaves are all `lv` (nothing happens) except exactly one: (condition of that leaf, the leaf)."""
+    found = []
+
+    def walk(t, cond):
+        if len(found) > 1:
+            return
+        if t == lv:
+            return
+        if t[0] == "ite":
+            walk(t[2], t[1] if cond is None else ("bin", "&&", cond, t[1]))
+            walk(t[3], ("not", t[1]) if cond is None else ("bin", "&&", cond, ("not", t[1])))
+            return
+        found.append((cond if cond is not None else ("lit", True), t))
+    walk(u, None)
+    return found[0] if len(found) == 1 else None
+
+
 def as_push_step(u, lv):
-    """u == ite(C, mut(lv <- push(V)), lv)  (or with the branches swapped)  ->  (C, V)"""
+    """u == ite(C, mut(lv <- push(V)), lv)  (branches swapped, or nested: `if A { continue } if B { continue } v.push(V)`)  ->  (C, V)"""
     if u[0] != "ite":
         return None
-    if u[3] == lv:
-        cond, m = u[1], u[2]
-    elif u[2] == lv:
-        cond, m = ("not", u[1]), u[3]
-    else:
+    leaf = _single_effect_leaf(u, lv)
+    if leaf is None:
         return None
+    cond, m = leaf
     if m[0] == "mut" and m[1] == lv and m[2][0] == "call" and isinstance(m[2][1], str) and m[2][1].rsplit("::", 1)[-1] in ("push", "push_back") and len(m[2][2]) == 1:
         return cond, m[2][2][0]
     return None
@@ -1195,7 +1211,14 @@ class Evaluator:
             # what is known on this exit (its own path condition) is used before the loop variables are closed
             import norm
             nz = norm.Normalizer()
-            t = nz(assume(nz(t), nz.pc(pc)))
+            npc = nz.pc(pc)
+            t = nz(assume(nz(t), npc))
+            for c in npc:
+                # an exit taken because `F(x) == x` returns x, whichever side of the equation the code names
+                if c[0] == "if" and c[2] is True and c[1][0] == "bin" and c[1][1] == "==":
+                    for a_, b_ in ((c[1][2], c[1][3]), (c[1][3], c[1][2])):
+                        if b_[0] == "loopvar" and a_[0] != "loopvar" and t == a_:
+                            t = b_
             rs[i] = (close(t), pc, may, must, node, kind)
 
     def fold(self, t):
@@ -1281,8 +1304,13 @@ class Evaluator:
             before, after = p.get("before") or [], p.get("after") or []
             for i, s in enumerate(before):
                 self._bind(s, ("index", term, ("lit", Int(i))), env)
-            for s in after:
-                self._bind(s, ("elem", term), env)
+            for j, s in enumerate(after):
+                back = len(after) - j               # the j-th pattern after `..` is the back-th element from the end
+                if back == 1:
+                    # `[.., last]`: the same value as `x.last()` of a non-empty slice
+                    self._bind(s, ("proj", ("call", "core::slice::<impl [T]>::last", (term,)), "std::prelude::v1::Some", 0), env)
+                else:
+                    self._bind(s, ("index", term, ("bin", "-", ("call", "#len", (term,)), ("lit", Int(back)))), env)
             if p.get("mid"):
                 rest = ("index", term, ("struct", "std::ops::RangeFrom", (("start", ("lit", Int(len(before)))),))) if not after else ("unk", "slice-middle")
                 self._bind(p["mid"], rest if before else (term if not after else rest), env)
@@ -1529,6 +1557,9 @@ class Evaluator:
         vals = [v for _, v in results]
         if all(v == vals[0] for v in vals):
             return vals[0]
+        if diverged or diverged_guarded:
+            # some arms left the function: the arms listed are not exhaustive (when none of them matches there is no value)
+            return ("switch", scrut, tuple(results), "partial")
         return ("switch", scrut, tuple(results))
 
     # ------------------------------------------------------------------ loops
